@@ -44,6 +44,8 @@ func newTypeDictionary() *typeDictionary {
 func (d *typeDictionary) add(n Node, name string, td *Typedef) {
 	defer d.mu.Unlock()
 	d.mu.Lock()
+	verifHook("td.enter", d)
+	defer verifHook("td.exit", d)
 	if d.dict[n] == nil {
 		d.dict[n] = map[string]*Typedef{}
 	}
@@ -54,6 +56,8 @@ func (d *typeDictionary) add(n Node, name string, td *Typedef) {
 func (d *typeDictionary) merge(o *typeDictionary) {
 	defer d.mu.Unlock()
 	d.mu.Lock()
+	verifHook("td.enter", d)
+	defer verifHook("td.exit", d)
 	for n, tds := range o.dict {
 		d.dict[n] = tds
 	}
@@ -63,6 +67,8 @@ func (d *typeDictionary) merge(o *typeDictionary) {
 func (d *typeDictionary) find(n Node, name string) *Typedef {
 	defer d.mu.Unlock()
 	d.mu.Lock()
+	verifHook("td.enter", d)
+	defer verifHook("td.exit", d)
 	if d.dict[n] == nil {
 		return nil
 	}
@@ -100,6 +106,8 @@ func (d *typeDictionary) typedefs() []*Typedef {
 	var tds []*Typedef
 	defer d.mu.Unlock()
 	d.mu.Lock()
+	verifHook("td.enter", d)
+	defer verifHook("td.exit", d)
 	for _, dict := range d.dict {
 		for _, td := range dict {
 			tds = append(tds, td)
